@@ -71,6 +71,54 @@ func registerJSON(e *Engine) {
 		}
 		return Iface{}
 	})
+	// Decoder.Decode: read the whole stream from the reader, then unmarshal
+	e.on("(*encoding/json.Decoder).Decode", func(fr *Frame, a []Value) Value {
+		p := fr.p
+		dec := (*a[0].(*Value)).(Struct)
+		rd := dec[0].(Iface)
+		var all []Value
+		for i := 0; i < 4096; i++ {
+			buf := make([]Value, 256)
+			for j := range buf {
+				buf[j] = smt.I(0)
+			}
+			res, ok := p.callMethod(fr, rd, "Read", buf)
+			if !ok {
+				panic(abort("engine: json.Decoder over a reader without Read"))
+			}
+			t := res.(Tuple)
+			n := p.concInt(t[0].(*smt.T), 0, 256)
+			all = append(all, buf[:n]...)
+			if ei := t[1].(Iface); ei.T != nil {
+				break
+			}
+		}
+		if len(all) == 0 {
+			return p.mkError(CStr("EOF"))
+		}
+		if err := p.jsonUnmarshal(fr, bytesToStr(all), a[1].(Iface)); err != nil {
+			return p.mkError(CStr("json: " + err.msg))
+		}
+		return Iface{}
+	})
+	e.on("(*encoding/json.Encoder).Encode", func(fr *Frame, a []Value) Value {
+		p := fr.p
+		enc := (*a[0].(*Value)).(Struct)
+		w := enc[0].(Iface)
+		it := a[1].(Iface)
+		var bl builder
+		if err := p.jsonEnc(fr, &bl, it.V, it.T, true); err != nil {
+			return p.mkError(CStr("json: " + err.msg))
+		}
+		bl.addSeg(Seg{S: "\n"})
+		res, _ := p.callMethod(fr, w, "Write", bl.str().toBytes())
+		if t, ok := res.(Tuple); ok {
+			if ei := t[1].(Iface); ei.T != nil {
+				return ei
+			}
+		}
+		return Iface{}
+	})
 	e.on("encoding/json.Valid", func(fr *Frame, a []Value) Value {
 		data := bytesToStr(a[0].([]Value))
 		ps := &jparser{us: data.units(), p: fr.p}
